@@ -17,6 +17,7 @@ sys.dont_write_bytecode = True
 _installed = [False]
 fmt_hook = [None]        # installed by symstr when string properties run
 extra_globals = {}       # name -> object injected in every instrumented module
+module_patches = {}      # global name -> (real module name, replacement) applied after the module body ran
 loaded_files = []
 
 
@@ -123,6 +124,9 @@ class _Loader(importlib.machinery.SourceFileLoader):
             g['np'] = npshim
         for k, v in extra_globals.items():
             g[k] = v
+        for k, (modname, repl) in module_patches.items():
+            if getattr(g.get(k), '__name__', None) == modname:
+                g[k] = repl
 
 
 class _Finder(importlib.abc.MetaPathFinder):
